@@ -217,7 +217,8 @@ package core
 //@ requires 0 <= c17Nonce[c17From(st.MessageContext.Msg)] && c17Nonce[c17From(st.MessageContext.Msg)] < 2^64 - 1     // a nonce is a uint64 and 2^64-1 transactions of one account are out of reach
 //@ let mc = st.MessageContext
 //@ let from = c17From(st.MessageContext.Msg)
-//@ modifies st.MessageContext.AvailableGas, c17Bal, c17Nonce, c17Refund
+//@ modifies st.MessageContext.AvailableGas, c17Bal, c17Nonce, c17Refund, c17NSnap, c17BSnap, c17SnapNext,
+//@     all(vm.EVMInterpreter.returnData), all(vm.EVMInterpreter.readOnly), st.evm.depth, st.evm.interpreter
 //@ ensures [nonce-plus-one] err == nil ==> c17Nonce[from] == old(c17Nonce[from]) + 1
 //@ ensures [gas-only-decreases] mc.AvailableGas <= old(mc.AvailableGas)
 //@ ensures [used-gas] err == nil ==> usedGas == mc.InitialGas - mc.AvailableGas
@@ -231,7 +232,7 @@ package core
 //@ requires msgCtx.AvailableGas <= msgCtx.InitialGas
 //@ requires 0 <= c17Nonce[c17From(msgCtx.Msg)] && c17Nonce[c17From(msgCtx.Msg)] < 2^64 - 1
 //@ let from = c17From(msgCtx.Msg)
-//@ modifies msgCtx.AvailableGas, c17Bal, c17Nonce, c17Refund
+//@ modifies msgCtx.AvailableGas, c17Bal, c17Nonce, c17Refund, c17NSnap, c17BSnap, c17SnapNext, all(vm.EVMInterpreter.returnData), all(vm.EVMInterpreter.readOnly)
 //@ ensures [nonce-plus-one] err == nil ==> c17Nonce[from] == old(c17Nonce[from]) + 1
 //@ ensures [gas-only-decreases] msgCtx.AvailableGas <= old(msgCtx.AvailableGas)
 //@ ensures [used-gas] err == nil ==> usedGas == msgCtx.InitialGas - msgCtx.AvailableGas
@@ -251,7 +252,7 @@ package core
 //@ trusted
 //@ requires c17CtxOK(msgCtx) && msgCtx.AvailableGas <= msgCtx.InitialGas
 //@ requires 0 <= c17Nonce[c17From(msgCtx.Msg)] && c17Nonce[c17From(msgCtx.Msg)] < 2^64 - 1
-//@ modifies msgCtx.AvailableGas, c17Bal, c17Nonce, c17Refund
+//@ modifies msgCtx.AvailableGas, c17Bal, c17Nonce, c17Refund, c17NSnap, c17BSnap, c17SnapNext, all(vm.EVMInterpreter.returnData), all(vm.EVMInterpreter.readOnly)
 //@ ensures result3 == nil ==> c17Nonce[c17From(msgCtx.Msg)] == old(c17Nonce[c17From(msgCtx.Msg)]) + 1
 //@ ensures msgCtx.AvailableGas <= old(msgCtx.AvailableGas)
 // the gas figure a converter reports is the gas used so far (staking: since YouV4, which fixed exactly that for failed staking transactions)
@@ -279,7 +280,7 @@ package core
 //@ ghost after call (TxConverter).ApplyMessage: c17ConvDelta := c17Bal[c17From(msg)] - c17SnapA
 //@ ghost before call (*MessageContext).refundGas: c17UsedPre := msgCtx.InitialGas - msgCtx.AvailableGas
 //@ ghost after call (*MessageContext).refundGas: c17Charged := msgCtx.InitialGas - msgCtx.AvailableGas
-//@ modifies *gp, c17Bal, c17Nonce, c17Refund, c17Intr, c17SnapA, c17ConvDelta, c17UsedPre, c17Charged
+//@ modifies *gp, c17Bal, c17Nonce, c17Refund, c17NSnap, c17BSnap, c17SnapNext, c17Intr, c17SnapA, c17ConvDelta, c17UsedPre, c17Charged, all(vm.EVMInterpreter.returnData), all(vm.EVMInterpreter.readOnly)
 // "a transaction refused up front (wrong nonce, cannot pay for its gas, block gas exhausted) changes nothing":
 //@ ensures [refused-wrong-nonce] !nonceOK ==> result3 != nil &&
 //@     c17Bal == old(c17Bal) && c17Nonce == old(c17Nonce) && c17Refund == old(c17Refund) && *gp == old(*gp)
@@ -317,7 +318,7 @@ package core
 // types.Message's getters return its fields (core/types/transaction.go:407-415): the interface-level model functions agree with them.
 //@ assume [types-message-getters] forall m: types.Message :: { box(m) } c17Price(box(m)) == m.gasPrice && c17Gas(box(m)) == m.gasLimit &&
 //@     c17From(box(m)) == m.from && c17MsgNonce(box(m)) == m.nonce && c17CheckNonce(box(m)) == m.checkNonce
-//@ modifies *usedGas, big(gasRewards), *gp, tx.from, tx.hash, c17Bal, c17Nonce, c17Refund, c17Intr, c17SnapA, c17ConvDelta, c17UsedPre, c17Charged
+//@ modifies *usedGas, big(gasRewards), *gp, tx.from, tx.hash, c17Cached, c17Bal, c17Nonce, c17Refund, c17NSnap, c17BSnap, c17SnapNext, c17Intr, c17SnapA, c17ConvDelta, c17UsedPre, c17Charged, all(vm.EVMInterpreter.returnData), all(vm.EVMInterpreter.readOnly)
 //@ ensures [error-leaves-block-accounting] result2 != nil ==> *usedGas == old(*usedGas) && big(gasRewards) == old(big(gasRewards)) && result0 == nil && result1 == 0
 //@ ensures [accumulates] result2 == nil ==> *usedGas == wrap64(old(*usedGas) + result1) &&
 //@     big(gasRewards) == old(big(gasRewards)) + old(big(tx.data.Price)) * result1 &&
@@ -335,3 +336,30 @@ package core
 //@ ensures [creation] msgToAddr == nil ==> result == p.defaultConverter
 //@ ensures [module] msgToAddr != nil && in(*msgToAddr, p.txConverters) ==> result == p.txConverters[*msgToAddr]
 //@ ensures [default] msgToAddr != nil && !in(*msgToAddr, p.txConverters) ==> result == p.defaultConverter
+
+// ---------------------------------------------------------------------------------------------------------------
+// Periphery: the two function values the EVM calls for "sufficient funds" and the value transfer (core/evm.go), and the
+// context constructor that installs them. The trusted contracts `dynamic:CanTransferFunc` / `dynamic:TransferFunc` in
+// /repo/core/vm/verif_contracts_c17.go are exactly these clauses.
+// ---------------------------------------------------------------------------------------------------------------
+
+//@ func CanTransfer props C17
+//@ requires db != nil && amount != nil
+//@ pure
+//@ ensures [funds-cover-value] result == (c17Bal[addr] >= big(amount))
+
+// (vm.StateDB).SubBalance / AddBalance: trusted interface contracts in /repo/core/vm/verif_contracts_c17.go
+//@ func Transfer props C17
+//@ requires db != nil && amount != nil
+//@ modifies c17Bal
+//@ ensures [exact-transfer] c17Bal == store(store(old(c17Bal), sender, old(c17Bal[sender]) - big(amount)), recipient,
+//@     (if recipient == sender then old(c17Bal[sender]) else old(c17Bal[recipient]) + big(amount)))
+//@ ensures [sum-preserved] sender != recipient ==> c17Bal[sender] + c17Bal[recipient] == old(c17Bal[sender]) + old(c17Bal[recipient])
+
+// The EVM context of a message: its funds check and transfer are the two verified functions above, its origin is the sender
+// (create's [nonce-consumed…] and Call's E1 are stated for evm.Context.Origin).
+//@ func NewEVMContext props C17
+//@ requires msg != nil && header != nil && header.Number != nil && c17Price(msg) != nil
+//@ modifies nothing
+//@ ensures [wired-to-verified] result.CanTransfer == CanTransfer && result.Transfer == Transfer
+//@ ensures [origin-is-sender] result.Origin == c17From(msg)
